@@ -196,3 +196,54 @@ def enum_edges(sw, variants=2):
     if len(missing) == 1:
         out[missing[0]] = sw['otherwise']
     return out
+
+
+_VARIANT_INDEX = {'None': '0', 'Some': '1', 'Ok': '0', 'Err': '1'}
+
+
+def reachable_tracking_variants(fn, start, avoid=()):
+    """Blocks reachable from `start` without entering `avoid`, following at a switch on the discriminant of a local that
+    was just assigned a known Option / Result variant (`let v = match r { .., Err(_) => None }; match v { .. }`) only the
+    edge of that variant.  The environment is killed by any other write to the local, so the result over-approximates the
+    feasible paths and is never larger than reachable_from()."""
+    avoid = set(avoid)
+    seen = set()
+    stack = [(start, frozenset())]
+    out = set()
+    while stack:
+        b, env = stack.pop()
+        if b in avoid or (b, env) in seen:
+            continue
+        seen.add((b, env))
+        out.add(b)
+        e = dict(env)
+        blk = fn.mir['blocks'][b]
+        discr_of = {}
+        for st in blk['stmts']:
+            if st['s'] != 'assign':
+                continue
+            l = st['place']['l']
+            rv = st['rv']
+            if rv['r'] == 'discr' and not st['place']['proj'] and not rv['place']['proj']:
+                discr_of[l] = rv['place']['l']
+                continue
+            discr_of.pop(l, None)
+            if not st['place']['proj'] and rv['r'] == 'aggr' and rv.get('is_enum') and rv.get('variant') in _VARIANT_INDEX and rv.get('adt', '').split('::')[-1] in ('Option', 'Result'):
+                e[l] = _VARIANT_INDEX[rv['variant']]
+            else:
+                e.pop(l, None)
+            if (rv['r'] == 'ref' and rv.get('mut')) or rv['r'] == 'rawptr':
+                e.pop(rv['place']['l'], None)
+        t = blk['term']
+        if t['t'] in ('call', 'callfield') and 'dest' in t:
+            e.pop(t['dest']['l'], None)
+        if t['t'] == 'switch' and 'l' in t['discr'] and discr_of.get(t['discr']['l']) in e:
+            want = e[discr_of[t['discr']['l']]]
+            nxt = enum_edges(t).get(want)
+            succs = [nxt] if nxt is not None else fn.succ(b)
+        else:
+            succs = fn.succ(b)
+        fe = frozenset(e.items())
+        for s in succs:
+            stack.append((s, fe))
+    return out
